@@ -28,7 +28,8 @@ RULE = ("trees: all ordered shapes up to N nodes x every start node x the gate g
         "+ random trees (6-30 nodes) + LARGE trees (101-400 nodes: a node with >=100 children / depth 40-60 / mixed) with sparse, "
         "late-appearing attributes and attributes whose type changes after row 100 (None..int, int..str) for dict/pandas/polars "
         "+ Newick attribute values that are == but of different types (True/1/1.0, False/0/0.0, 2/2.0) in one tree and across "
-        "consecutive cases with sibling-unique names from per-format hostile alphabets (Newick specials, blanks, "
+        "consecutive cases + a 'renamed' history (tree built under placeholder names, every path read, nodes renamed through the "
+        "public name attribute, then exported) on ~30% of the small and random dict/DataFrame/nested cases with sibling-unique names from per-format hostile alphabets (Newick specials, blanks, "
         "double quotes, dots, digits, non-ASCII; never the separator, never ' in the valid stream), attribute maps with "
         "ints/strings/None; options name_key/name_col, parent_key/parent_col, path_col, attr_dict, all_attrs, separator, "
         "start node != root; pandas and polars through the real libraries; a malformed Newick stream (all short strings "
@@ -536,7 +537,9 @@ def gen(rng: random.Random, tier: str):
                     dep = depth_of(spec, d["start"])
                     if d["md"] and d["md"] < dep:
                         d["md"] = dep
-                add(mk(d, ("small-rt", fmt, "full" if full else "partial")))
+                if rng.random() < 0.3:
+                    d["hist"] = "rename"
+                add(mk(d, ("small-rt", fmt, "full" if full else "partial") + (("renamed",) if d.get("hist") else ())))
             # print
             spec, _k = make_tree(rng, shape, "print", "/", keys=[])
             for style in (["const", "ansi"] if quick else ["ansi", "ascii", "const", "const_bold", "rounded", "double"]):
@@ -580,8 +583,11 @@ def gen(rng: random.Random, tier: str):
                     dep = depth_of(spec, d["start"])
                     if d["md"] and d["md"] < dep:
                         d["md"] = dep
+                if rng.random() < 0.3:
+                    d["hist"] = "rename"
                 add(mk(d, ("random", fmt, op, "depth>=5" if depth >= 5 else "depth<5",
-                           "full" if full else "opts", "start!=root" if d["start"] else "start=root")))
+                           "full" if full else "opts", "start!=root" if d["start"] else "start=root")
+                       + (("renamed",) if d.get("hist") else ())))
         spec, keys = newick_tree(rng, shape, quote=(rng.random() < 0.1))
         for op in ("exp", "rt", "rt"):
             full = op == "rt" and rng.random() < 0.5
@@ -617,6 +623,20 @@ def nontrivial(case):
 
 # ---------------------------------------------------------------- implementation side
 def _build(d):
+    """hist='rename': the tree is built under placeholder names, something reads every node's
+    path, then the nodes are renamed through the public `name` attribute (no structural change
+    afterwards) - the final tree is the same, reached by a different history"""
+    if d.get("hist") == "rename":
+        ctr = itertools.count()
+        def tmp(t):
+            i = next(ctr)
+            return ["t%d_" % i, t[1], [tmp(c) for c in t[2]]]
+        root, nodes = core.build_node_tree(tmp(d["spec"]), sep=d.get("sep", "/"))
+        _paths = [n.path_name for n in nodes]
+        _reprs = [repr(n) for n in nodes[:3]]
+        for n, (_a, sp) in zip(nodes, core.spec_nodes(d["spec"])):
+            n.name = sp[0]
+        return root, nodes, nodes[d["start"]]
     root, nodes = core.build_node_tree(d["spec"], sep=d.get("sep", "/"))
     return root, nodes, nodes[d["start"]]
 
